@@ -69,6 +69,11 @@ RULE = (
     'leaf is reached (always) ; sqlite -- >= 2 clients or such a leaf; state -- '
     'depth >= 2 or a dataclass / namedtuple node. distinct = distinct canonical '
     'case JSON.')
+RULE += (
+    ' '
+    'Later widenings: failing saves; reads inside open walks; a stale database at the output '
+    'path; one reader object following a build; a damaged blob handed to the deserialiser bef'
+    'ore the valid one; consumer edits of a read client followed by re-reads.')
 ASSUMPTIONS = [
     'equal dtype is judged up to byte order (dtype.name): the msgpack wire '
     'format stores the dtype name only, so results are native-endian by design',
